@@ -473,12 +473,17 @@ fn load_toplevel_items_(
                     // import. We don't need to load the namespace
                     // again, but we do need to add the values to the
                     // current namespace.
-                    let imported_ns = env.get_namespace(&abs_path).unwrap();
-                    insert_imported_namespace(
-                        import_info.namespace_sym.as_ref(),
-                        Rc::clone(&namespace),
-                        imported_ns,
-                    );
+                    //
+                    // There's no namespace if the earlier import of
+                    // this file failed (e.g. the file doesn't exist),
+                    // and that was already reported.
+                    if let Some(imported_ns) = env.get_namespace(&abs_path) {
+                        insert_imported_namespace(
+                            import_info.namespace_sym.as_ref(),
+                            Rc::clone(&namespace),
+                            imported_ns,
+                        );
+                    }
 
                     continue;
                 }
